@@ -165,6 +165,7 @@ def run(chk, which="C15"):
     dropped = []
     jobs = [(si, sh, fl) for fl in flav for si, sh in enumerate(shards)]
     results = core.pmap(lambda j: (j[2], build_and_run(j[0], j[1], j[2], nrandom, dropped)), jobs)
+    core.reach(chk, emit_tu([x for x in insts if x["id"] not in {d["id"] for d in dropped}][::11][:40]), [[60, 1]])
     probes = refusal_probes(inv_cases if tier == "thorough" else inv_cases[::2] + inv_cases[-25:])
     pre = '#include "au/au.hh"\n' + INC + "\n#include <cstdint>\n"
     cfgs = [(core.GXX, "c++14"), (core.CLANGXX, "c++17")] if tier == "quick" else core.CONFIGS
